@@ -747,8 +747,35 @@ fn kd(seed: u64, n: u64) {
                     // neighbours that differ in one place only
                     ("sign", vec![0, 0, 0]), ("sign", vec![0, 0, 1]), ("sign", vec![0, 1, 0]), ("sign", vec![1, 0, 0]),
                     ("idcredsec", vec![0, 0]), ("prf", vec![0, 0]), ("blind", vec![0, 0]), ("attr", vec![0, 0, 0, 0]), ("attr", vec![0, 0, 0, 1]),
+                    ("sign", vec![3, 7, 11]), ("sign", vec![7, 3, 11]), ("sign", vec![3, 11, 7]), ("idcredsec", vec![3, 7]), ("idcredsec", vec![7, 3]),
+                    ("prf", vec![3, 7]), ("prf", vec![7, 3]), ("blind", vec![3, 7]), ("blind", vec![7, 3]),
+                    ("attr", vec![3, 7, 11, 13]), ("attr", vec![7, 3, 11, 13]), ("attr", vec![3, 11, 7, 13]), ("attr", vec![3, 7, 13, 11]),
+                    ("vcsign", vec![3, 7, 11]), ("vcsign", vec![7, 3, 11]), ("vcsign", vec![3, 11, 7]),
                     ("vcsign", vec![0, 0, 0]), ("vcsign", vec![1, 0, 0]), ("vcsign", vec![0, 1, 0]), ("vcsign", vec![1 << 16, 0, 0]), ("vcsign", vec![0, 1 << 48, 0]),
                 ];
+                // the wrappers around the wallet getters: CredentialContext (HasAttributeRandomness, get_cred_id_exponent)
+                // must agree with the direct getters for the SAME (ip, identity, credential, tag), ip != identity index
+                {
+                    use concordium_base::id::types::{HasAttributeRandomness, IpIdentity};
+                    let h31 = 1u64 << 31;
+                    let ctxs: Vec<[u64; 4]> = vec![[3, 7, 2, 5], [7, 3, 2, 5], [0, 1, 0, 0], [1, 0, 0, 0], [h31 - 1, 0, 255, 255], [0, h31 - 1, 1, 254],
+                        [h31, 5, 0, 0], [5, h31, 0, 0], [idx(&mut r), idx(&mut r), r.below(256), r.below(256)], [r.below(1 << 12), (1 << 12) + r.below(1 << 12), r.below(256), r.below(256)]];
+                    for a in ctxs {
+                        let ctx = key_derivation::CredentialContext { wallet: w.clone(), identity_provider_index: IpIdentity(a[0] as u32), identity_index: a[1] as u32, credential_index: a[2] as u8 };
+                        let via = guarded(|| ctx.get_attribute_commitment_randomness(&AttributeTag(a[3] as u8)).map(|x| hex(&to_bytes(&x))));
+                        let got = match via { Ok(Ok(s)) => s, Ok(Err(_)) => "Err".to_string(), Err(_) => "PANIC".to_string() };
+                        let direct = getter(&w, "attr", &a);
+                        println!("{}", json!({"k":"kd","via":"CredentialContext::get_attribute_commitment_randomness","seed":hex(&seed),"net":net,"kind":"attr",
+                            "a":a.iter().map(|x| format!("{:x}", x)).collect::<Vec<_>>(),"got":got,"deterministic":true,"public_matches":J::Null,"direct_agrees":got==direct}));
+                        // credential registration id exponent: 1 / (prf_key(ip, id) + credential_index)
+                        let e = guarded(|| ctx.get_cred_id_exponent().map(|o| o.map(|x| hex(&to_bytes(&x)))));
+                        let got = match e { Ok(Ok(Some(s))) => s, Ok(Ok(None)) => "NoExp".to_string(), Ok(Err(_)) => "Err".to_string(), Err(_) => "PANIC".to_string() };
+                        let direct = match guarded(|| w.get_prf_key(a[0] as u32, a[1] as u32).map(|k| k.prf_exponent(a[2] as u8).ok().map(|x| hex(&to_bytes(&x))))) {
+                            Ok(Ok(Some(s))) => s, Ok(Ok(None)) => "NoExp".to_string(), Ok(Err(_)) => "Err".to_string(), Err(_) => "PANIC".to_string() };
+                        println!("{}", json!({"k":"kdctx","seed":hex(&seed),"net":net,"a":a.iter().map(|x| format!("{:x}", x)).collect::<Vec<_>>(),
+                            "got":got,"direct_agrees":got==direct}));
+                    }
+                }
                 for (kind, a) in cases {
                     let got = getter(&w, kind, &a);
                     let again = getter(&w, kind, &a);
